@@ -18,7 +18,7 @@ RULE = ('Model-based histories on a MultiAntennaArray: Hypothesis draws 1..4 ant
         'Non-trivial: >=2 requests in a segment and >=2 distinct delays.')
 ASSUMPTIONS = ['closed-form tolerance amplitude*(64 ulp(phase)+1e-12)', 'request sizes exceed the largest delay (documented precondition)',
                'twin mode is a metamorphic relation against the same code under a different chunking']
-REQUIRED_CLASSES = ['mode=closed', 'mode=twin', 'delays=omitted', 'delays=zero', 'delays=distinct', 'pols=1', 'pols=2',
+REQUIRED_CLASSES = ['complex_sources=bg', 'complex_sources=own', 'mode=closed', 'mode=twin', 'delays=omitted', 'delays=zero', 'delays=distinct', 'pols=1', 'pols=2',
                     'requests>=2', 'op=set_time', 'op=reset_start', 'refused_request', 'silent_stream']
 
 
@@ -48,14 +48,24 @@ def strategy_(draw, tier):
                 npol=draw(st.integers(1, 2)), sr=draw(st.sampled_from([1e6, 2.048e6, 187.5e3])),
                 t0=draw(st.sampled_from([0.0, 0.0, 1e-3, 17.25])), seed=draw(st.integers(0, 2 ** 31 - 1)),
                 mode=draw(st.sampled_from(['closed', 'twin'])), ascending=draw(st.booleans()), ops=ops,
-                fseed=draw(st.integers(0, 10 ** 6)))
+                fseed=draw(st.integers(0, 10 ** 6)),
+                # complex-valued custom sources: on the shared background, on the antennas' own streams, or both
+                cplx=draw(st.sampled_from([None, None, None, 'bg', 'own', 'both'])))
 
 
 def strategy(tier):
     return strategy_(tier)
 
 
+def wave(cplx, a, f, ts):
+    """Custom source: a real sinusoid, or a complex exponential of the same amplitude and frequency."""
+    ph = 2 * np.pi * f * np.asarray(ts)
+    return a * np.exp(1j * ph) if cplx else a * np.sin(ph)
+
+
 def build(AN, case, freqs, with_noise):
+    cb = case.get('cplx') in ('bg', 'both')
+    co = case.get('cplx') in ('own', 'both')
     kw = dict(num_antennas=case['na'], sample_rate=case['sr'], fch1=1e9, ascending=case['ascending'],
               num_pols=case['npol'], t_start=case['t0'], seed=case['seed'])
     if case['delay_kind'] != 'omitted':
@@ -69,7 +79,7 @@ def build(AN, case, freqs, with_noise):
     for p, s in enumerate(arr.bg_streams):
         a, f = freqs['bg'][p]
         if idx not in silent:
-            s.add_signal(lambda ts, a=a, f=f: a * np.sin(2 * np.pi * f * ts))
+            s.add_signal(lambda ts, a=a, f=f: wave(cb, a, f, ts))
             if with_noise:
                 s.add_noise(v_mean=0.0, v_std=0.7)
         else:
@@ -79,7 +89,7 @@ def build(AN, case, freqs, with_noise):
         for p, s in enumerate(ant.streams):
             a, f = freqs['own'][i][p]
             if idx not in silent:
-                s.add_signal(lambda ts, a=a, f=f: a * np.sin(2 * np.pi * f * ts))
+                s.add_signal(lambda ts, a=a, f=f: wave(co, a, f, ts))
                 if with_noise:
                     s.add_noise(v_mean=0.0, v_std=1.0)
             else:
@@ -102,6 +112,10 @@ def run_case(case, ctx):
     freqs = dict(own=[[(float(rs.uniform(0.5, 2)), float(rs.uniform(0.01, 0.2) * sr)) for _ in range(npol)] for _ in range(na)],
                  bg=[(float(rs.uniform(0.5, 2)), float(rs.uniform(0.01, 0.2) * sr)) for _ in range(npol)])
     with_noise = case['mode'] == 'twin'
+    cb = case.get('cplx') in ('bg', 'both')
+    co = case.get('cplx') in ('own', 'both')
+    if case.get('cplx'):
+        obs.cls('complex_sources=' + case['cplx'])
     if case.get('silent'):
         obs.cls('silent_stream')
     ok, arr = core.call(obs, 'construct[' + case['delay_kind'] + ']', build, AN, case, freqs, with_noise)
@@ -196,18 +210,18 @@ def run_case(case, ctx):
                         b, g = freqs['bg'][p]
                         t_own = np.array([float(seg_start + (k0 + int(k)) * dtq) for k in kk])
                         t_bg = np.array([float(seg_start + (k0 + int(k) + D - delays[i]) * dtq) for k in kk])
-                        exp = a * np.sin(2 * np.pi * f * t_own) + b * np.sin(2 * np.pi * g * t_bg)
+                        exp = wave(co, a, f, t_own) + wave(cb, b, g, t_bg)
                         ph = 2 * np.pi * max(f, g) * (abs(float(seg_start)) + (k0 + n + D) / sr)
                         tol = (a + b) * ((nops + 64) * gen.ulp(max(ph, 1.0)) + 1e-12)
                         err = np.abs(v[i, p] - exp)
                         if np.any(err > tol):
                             k = int(np.argmax(err))
                             # which part is off? try to attribute to the background alignment
-                            resid = v[i, p] - a * np.sin(2 * np.pi * f * t_own)
+                            resid = v[i, p] - wave(co, a, f, t_own)
                             shift = None
                             for s in range(-3, 4):
                                 tb = np.array([float(seg_start + (k0 + int(q) + D - delays[i] + s) * dtq) for q in kk])
-                                if np.all(np.abs(resid - b * np.sin(2 * np.pi * g * tb)) <= tol):
+                                if np.all(np.abs(resid - wave(cb, b, g, tb)) <= tol):
                                     shift = s
                             where = 'first_request' if k0 == 0 else 'later_request'
                             obs.fail(f'alignment:{where}', f'antenna {i} (delay {delays[i]} of max {D}) pol {p} sample {k}: got {v[i, p, k]!r} '
